@@ -595,7 +595,7 @@ def lean_obligations(pid, module, evidence, violations):
                                    [n for n, _ in thms if not (axmap.get(n) is not None and set(axmap[n]) <= ALLOWED_AXIOMS)] + bad_src)))
     return ok, len(thms), discharged
 
-STATIC_HALF = {"C01", "C04", "C07", "C13", "C17"}
+STATIC_HALF = {"C01", "C04", "C07", "C12", "C13", "C17"}
 MIRI_PROPS = {"C02", "C05", "C11"}
 
 def run_miri_sample(families, tier, seed, key, n_t2=30, n_t1=60):
@@ -753,17 +753,26 @@ def t1_property(pid, tier, seed, replay):
                                impl=str(pb), model="third_member_released=true", source="extras",
                                message="a scoped call on a collection unwound and gave the key back while a member whose unlock does not panic is still locked (the unlock loop stopped at a panicking payload destructor)"))
         if pid == "C12":
-            kw = xl.get("kill_while_waiting")
-            if kw is None or kw.get("waiter_got") == "guard" or kw.get("waiter_was_waiting") != "true":
+            # what the statement-level protocol model (Model/Kill.lean) says these schedules end in
+            try:
+                pk = subprocess.run([drv, "kill"], stdout=subprocess.PIPE, stderr=subprocess.STDOUT, text=True, timeout=60)
+                ml = {l.split(";")[0]: dict(kv.split("=", 1) for kv in l.split(";")[1:] if "=" in kv) for l in pk.stdout.splitlines() if ";" in l}
+            except Exception as e:
+                ml = {}
+            evidence["kill_model"] = ml
+            if set(ml) != {"kill_while_waiting", "kill_during_try"}:
+                violations.append(dict(kind="correspondence", what=f"protocol model did not answer the kill scenarios: {ml}"))
+            kw = xl.get("kill_while_waiting"); want = ml.get("kill_while_waiting", {}).get("waiter_got", "refused")
+            if kw is None or kw.get("waiter_got") != want or kw.get("waiter_was_waiting") != "true":
                 n_direct_seen += 1
                 direct.append(dict(case="extras: kill_while_waiting  (A holds; B blocks in lock(); C's raw try_lock panics and kills the lock; A releases)",
-                                   impl=str(kw), model="waiter_got=refused", source="extras",
+                                   impl=str(kw), model=f"waiter_got={want}", source="extras",
                                    message="a thread that was already waiting when the lock was killed by a panicking raw operation is handed a usable guard afterwards (the kill flag is only tested before the blocking call)"))
-            kt = xl.get("kill_during_try")
-            if kt is None or kt.get("in_flight_try_got_guard") != "false" or kt.get("try_was_in_flight") != "true" or kt.get("fresh_try_refused") != "true":
+            kt = xl.get("kill_during_try"); want = ml.get("kill_during_try", {}).get("in_flight_try_got_guard", "false")
+            if kt is None or kt.get("in_flight_try_got_guard") != want or kt.get("try_was_in_flight") != "true" or kt.get("fresh_try_refused") != "true":
                 n_direct_seen += 1
                 direct.append(dict(case="extras: kill_during_try  (A holds; B's try_lock is pre-empted inside the raw try; A's raw unlock releases and then panics, killing the lock; B resumes)",
-                                   impl=str(kt), model="in_flight_try_got_guard=false;fresh_try_refused=true", source="extras",
+                                   impl=str(kt), model=f"in_flight_try_got_guard={want};fresh_try_refused=true", source="extras",
                                    message="a try_lock in flight when the lock was killed by a panicking raw operation returns a usable guard on the killed lock (the kill flag is only tested before the raw try)"))
 
     # C07: the zero-sized corner (recorded finding D9), reproduced against the real crate
